@@ -64,6 +64,8 @@ RULES = {
               "signal at every point; every implementation poll is also used as the cancellation point",
     "hostile": "ill-typed and extreme operands in every operator / condition / iterable / element / index / slice-bound position, "
                "object-less index expressions, attribute expressions, overflowing ranges and steps",
+    "v2shared": "the operator table (literal / variable operands, unary, trees), slices, indexing, control flow and aliasing "
+                "families of the v1 checks run on the v2 interpreter (programs that call v1-only builtins left out)",
     "v2": "every value position holding a construct without value (void call, attribute expression, value-less probe) after an "
           "earlier expression; multi-assignment and multi-value calls; undefined names; random v2 programs",
 }
